@@ -123,6 +123,7 @@ type provState struct {
 	used    map[int]bool // file numbers ever used by this provider (never reused)
 	known   map[int]int  // file -> obj: harness belief, from returned results only
 	handles map[int]objstorage.RemoteObjectBackingHandle
+	ckptN   int
 
 	resume        chan struct{}
 	status        evKind
@@ -576,7 +577,42 @@ func (w *world) runStep(ps *provState, st Step) {
 		result = "ok"
 		w.labels["concurrent-read"] = true
 
+	case "ckpt":
+		// Provider.CheckpointState (the shared-storage half of DB.Checkpoint): it
+		// copies no object, it protects the named ones from deletion "for the
+		// life of this instance". Model: the checkpoint is one more holder of the
+		// object until this provider is reopened.
+		obj, ok := ps.known[st.File]
+		if !ok {
+			return
+		}
+		c.obj = obj
+		ps.ckptN++
+		dir := fmt.Sprintf("ckpt%d", ps.ckptN)
+		if err := ps.fs.MkdirAll(dir, 0o755); err != nil {
+			panic(err)
+		}
+		if err := ps.p.CheckpointState(ps.fs, dir, []base.DiskFileNum{base.DiskFileNum(st.File)}); err != nil {
+			result = "err:" + err.Error()
+			w.labels["ckpt-error"] = true
+			return
+		}
+		w.holders[obj][holderKey{ps.idx, -st.File}] = true
+		w.labels["ckpt"] = true
+		if ps.handles[st.File] != nil {
+			w.labels["ckpt-while-backing-handle-open"] = true
+		}
+		result = "ok"
+
 	case "reopen":
+		// the protection of checkpointed objects ends with the instance
+		for _, h := range w.holders {
+			for k := range h {
+				if k.prov == ps.idx && k.file < 0 {
+					delete(h, k)
+				}
+			}
+		}
 		// Backing handles are only valid until the provider is closed.
 		for f := range ps.handles {
 			delete(ps.handles, f)
@@ -719,6 +755,17 @@ func (w *world) finalChecks() {
 			return keys[i].file < keys[j].file
 		})
 		for _, k := range keys {
+			if k.file < 0 {
+				// a checkpoint taken by this provider instance: the object must
+				// still be in the store
+				if name := w.objNames[obj]; name != "" {
+					if _, err := w.inner.Size(name); err != nil {
+						w.violate("at the end a checkpoint taken by provider %d (still the same instance) references file %d (obj %d %s) "+
+							"but the object is gone from the store: %v", k.prov, -k.file, obj, name, err)
+					}
+				}
+				continue
+			}
 			data, err := w.readThroughProvider(w.provs[k.prov], k.file)
 			if err != nil {
 				w.violate("at the end provider %d holds file %d (obj %d %s; create/attach returned success, never removed) "+
